@@ -10,17 +10,36 @@ from common import B, L, Nat, O, P, S
 
 MODEL_FILES = ["Model/Validio.v", "Model/ValidioInst.v", "Corr/Obs.v"]
 HEADER = V.HEADER + """Inductive run_spec := RRead (m : mode) (limit : option nat) (raws : list (list text)) (fault : bool)
-                    | RWrite (rows : list (list text)) (do_close : bool).
+                    | RWrite (rows : list (list text)) (do_close : bool)
+                    | RWriteRows (portions : list (list (list text))) (do_close : bool).   (* one write_rows call per portion *)
 Fixpoint wlog (c : cid cstate) (w : wstate cstate) (rows : list (list text)) : wstate cstate * list event :=
   match rows with
   | [] => (w, [])
   | row :: rest => let '(w', _, evs) := write_row c w row in let '(wf, evs') := wlog c w' rest in (wf, evs ++ evs')
+  end.
+(* Writer.write_rows(rows): write_row for each row; the first rejected row ends the call *)
+Fixpoint rows_call_log (c : cid cstate) (w : wstate cstate) (rs : list (list text)) : wstate cstate * list event :=
+  match rs with
+  | [] => (w, [])
+  | r :: t => let '(w', e, evs) := write_row c w r in
+              match e with
+              | Some _ => (w', evs)
+              | None => let '(wf, evs') := rows_call_log c w' t in (wf, evs ++ evs')
+              end
+  end.
+Fixpoint plog (c : cid cstate) (w : wstate cstate) (ps : list (list (list text))) : wstate cstate * list event :=
+  match ps with
+  | [] => (w, [])
+  | p :: rest => let '(w', evs) := rows_call_log c w p in let '(wf, evs') := plog c w' rest in (wf, evs ++ evs')
   end.
 Definition run_log (c : cid cstate) (r : run_spec) : list event :=
   match r with
   | RRead m limit raws fault => r_log (api_rows c m limit [] raws fault)
   | RWrite rows do_close =>
       let '(wf, evs) := wlog c (writer_init c []) rows in
+      reset_events (length (c_checks c)) 0 ++ evs ++ (if do_close then snd (writer_close c wf) else [])
+  | RWriteRows ps do_close =>
+      let '(wf, evs) := plog c (writer_init c []) ps in
       reset_events (length (c_checks c)) 0 ++ evs ++ (if do_close then snd (writer_close c wf) else [])
   end.
 Definition run (i : cid cstate * list run_spec) : list event := flat_map (run_log (fst i)) (snd i)."""
@@ -31,7 +50,7 @@ SHARD = 200
 RULE = ("recording plugin field format and check classes defined in the harness process and resolved by class name "
         "('Rec') like built-ins - a tenth of the cases with classes created only at that moment, after many CIDs have been read in the process - x CIDs with 1..4 such fields (empty flag, length, allowed characters varied; delimited "
         "and fixed) and 0..3 such checks (accepting, vetoing a row, failing at the end) x tables of 0..6 rows x header "
-        "0..2 x validation limit x the three modes x reader and writer x 1..3 repeated runs on one CID; the recorded "
+        "0..2 x validation limit x the three modes x reader and writer (write_row calls, or write_rows calls on portions of the rows) x 1..3 repeated runs on one CID; the recorded "
         "call sequence (reset / validated_value / check_row / check_at_end / cleanup with their arguments) must equal "
         "the model's log. Non-trivial: the log contains a validated_value or check_row call. Distinct = distinct case.")
 TRUSTED = ["row readers deliver the logical rows (C12/C13)"]
@@ -79,6 +98,20 @@ def make_case(inp):
                 pass
             specs.append("(RRead %s %s %s %s)" % (V.MODES[r["mode"]], O(r["limit"], Nat), L(raws, lambda x: L(x, S)), B(fault)))
             _ = del_before
+        elif r.get("portions") is not None:
+            writer = validio.Writer(cid, io.StringIO())
+            for portion in r["portions"]:
+                try:
+                    writer.write_rows([list(row) for row in portion])
+                except Exception:  # noqa
+                    pass
+            if r["close"]:
+                try:
+                    writer.close()
+                except Exception:  # noqa
+                    pass
+            specs.append("(RWriteRows %s %s)" % (L(r["portions"], lambda p: L(p, lambda x: L(x, S))), B(r["close"])))
+            continue
         else:
             writer = validio.Writer(cid, io.StringIO())
             for row in r["rows"]:
@@ -124,7 +157,17 @@ def gen_inputs(tier, rnd):
                 rows = V.gen_table(rnd, spec, nrows=rnd.randint(0, 5), ragged=spec["format"] != "fixed")
                 if spec["format"] == "fixed":
                     rows = [[c.rstrip() or c for c in r] for r in rows]
-                runs.append({"kind": "write", "rows": rows, "close": rnd.random() < 0.7})
+                if rnd.random() < 0.4 and (spec["format"] != "fixed" or all(len(r) == len(spec["fields"]) for r in rows)):
+                    # the same rows handed over in portions, one write_rows call each (header rows first, if any)
+                    hdr = [[("h%d" % j)[: (f["length"][0][0] if spec["format"] == "fixed" else 9)] for j, f in enumerate(spec["fields"])] for _h in range(spec["header"])]
+                    allrows, portions, i = hdr + rows, [], 0
+                    while i < len(allrows):
+                        k = rnd.randint(1, 3)
+                        portions.append(allrows[i:i + k])
+                        i += k
+                    runs.append({"kind": "write", "portions": portions, "rows": allrows, "close": rnd.random() < 0.7})
+                else:
+                    runs.append({"kind": "write", "rows": rows, "close": rnd.random() < 0.7})
         if rnd.random() < 0.1:
             # plugin classes that come into being only now, long after the first CID of this process was read
             spec["rec_name"] = "Late%d" % rnd.randrange(10 ** 9)
